@@ -469,8 +469,6 @@ class ConnectionPool(Entity):
 
     def _handle_warmup(self, event: Event) -> Generator[float, None, list[Event] | None]:
         """Create minimum connections."""
-        events = []
-
         while self._total_connections < self._min_connections:
             connection = yield from self._create_connection()
 
@@ -496,7 +494,9 @@ class ConnectionPool(Entity):
                     },
                 },
             )
-            events.append(timeout_event)
+            # Hand the check over now; collected until the end of the warm-up it
+            # could lie in the past once the remaining connections are set up.
+            yield 0.0, [timeout_event]
 
         logger.debug(
             "[%s] Warmup complete: created %d connections",
@@ -504,7 +504,7 @@ class ConnectionPool(Entity):
             self._min_connections,
         )
 
-        return events if events else None
+        return None
 
     def _handle_idle_timeout(self, event: Event) -> list[Event] | None:
         """Handle idle timeout for a connection."""
